@@ -1,0 +1,40 @@
+//go:build verif
+
+package store
+
+// Contracts for govc (see /verif/DESIGN.md). Compiled only with -tags verif.
+
+// The keys a region owns: StartKey <= key < EndKey, an empty bound is unbounded.
+//@ spec func inRange(start []byte, end []byte, key []byte) bool = (len(start) == 0 || bcmp(key, start) >= 0) && (len(end) == 0 || bcmp(key, end) < 0)
+// A named key is acceptable when it is absent (empty) or owned by the region.
+//@ spec func keyOK(meta manifest.RegionMeta, key []byte) bool = len(key) == 0 || inRange(meta.StartKey, meta.EndKey, key)
+
+//@ func keyInRange
+//@   property C25
+//@   ensures [iff-inRange] result == keyOK(meta, key)
+//@   modifies nothing
+
+//@ func epochNotMatchError
+//@   ensures [non-nil] result != nil
+//@   trusted
+//@   modifies nothing
+
+//@ func validateRegionEpoch
+//@   property C25
+//@   ensures [nil-iff-equal] (result == nil) <==> (reqEpoch != nil && reqEpoch.ConfVer == meta.Epoch.ConfVersion && reqEpoch.Version == meta.Epoch.Version)
+
+// Every key a request names, per command kind (the oneof getters are the program's own).
+//@ spec func keysOKTo(meta manifest.RegionMeta, keys [][]byte, n int) bool = forall j int :: 0 <= j && j < n && j < len(keys) ==> keyOK(meta, keys[j])
+//@ spec func mutsOKTo(meta manifest.RegionMeta, muts []*pb.Mutation, n int) bool = forall j int :: 0 <= j && j < n && j < len(muts) && muts[j] != nil ==> keyOK(meta, muts[j].GetKey())
+//@ spec func reqKeysOK(meta manifest.RegionMeta, r *pb.Request) bool = (r.CmdType == 1 ==> keyOK(meta, r.GetGet().GetKey())) && (r.CmdType == 2 ==> keyOK(meta, r.GetScan().GetStartKey())) && (r.CmdType == 3 ==> mutsOKTo(meta, r.GetPrewrite().GetMutations(), len(r.GetPrewrite().GetMutations()))) && (r.CmdType == 4 ==> keysOKTo(meta, r.GetCommit().GetKeys(), len(r.GetCommit().GetKeys()))) && (r.CmdType == 5 ==> keysOKTo(meta, r.GetBatchRollback().GetKeys(), len(r.GetBatchRollback().GetKeys()))) && (r.CmdType == 6 ==> keysOKTo(meta, r.GetResolveLock().GetKeys(), len(r.GetResolveLock().GetKeys()))) && (r.CmdType == 7 ==> keyOK(meta, r.GetCheckTxnStatus().GetPrimaryKey())) && 1 <= r.CmdType && r.CmdType <= 7
+//@ spec func reqsOKTo(meta manifest.RegionMeta, reqs []*pb.Request, n int) bool = forall i int :: 0 <= i && i < n && i < len(reqs) && reqs[i] != nil ==> reqKeysOK(meta, reqs[i])
+
+//@ func validateRequestKeys
+//@   property C25
+//@   timeout 180
+//@   ensures [all-named-keys-in-range] result == nil && req != nil ==> reqsOKTo(meta, req.Requests, len(req.Requests))
+//@   loop 1 invariant [done-so-far] req != nil && reqsOKTo(meta, req.Requests, rangeindex#1 + 1)
+//@   loop 2 invariant [prewrite] req != nil && reqsOKTo(meta, req.Requests, rangeindex#1) && r != nil && r.CmdType == 3 && mutsOKTo(meta, r.GetPrewrite().GetMutations(), rangeindex#2 + 1)
+//@   loop 3 invariant [commit] req != nil && reqsOKTo(meta, req.Requests, rangeindex#1) && r != nil && r.CmdType == 4 && keysOKTo(meta, r.GetCommit().GetKeys(), rangeindex#3 + 1)
+//@   loop 4 invariant [rollback] req != nil && reqsOKTo(meta, req.Requests, rangeindex#1) && r != nil && r.CmdType == 5 && keysOKTo(meta, r.GetBatchRollback().GetKeys(), rangeindex#4 + 1)
+//@   loop 5 invariant [resolve] req != nil && reqsOKTo(meta, req.Requests, rangeindex#1) && r != nil && r.CmdType == 6 && keysOKTo(meta, r.GetResolveLock().GetKeys(), rangeindex#5 + 1)
